@@ -174,33 +174,23 @@ Theorem C14_print_binn_value : forall fo pf v bs, wf v = true -> binn_encode v =
 Proof. exact jbl_as_json_binn_value. Qed.
 Print Assumptions C14_print_binn_value.
 
-(* ... hence, for EVERY flag set, the text of the tree under the flags with the indentation bits cleared (`pf_jbl`) ... *)
-Theorem C14_print_agree_flags : forall fo pf v bs, wf v = true -> binn_encode v = Some bs ->
-  jbl_as_json_binn fo pf bs = lift (as_json fo (pf_jbl pf) v).
-Proof. exact print_agree_flags. Qed.
-Print Assumptions C14_print_agree_flags.
-
-(* ... which is print_agree as the property states it for every flag set with the one-space indentation (any combination of
-   JBL_PRINT_PRETTY, JBL_PRINT_CODEPOINTS and bits that are not the INDENT2 / INDENT4 bits); doubles print through `fo` on
-   both sides; a printer error (invalid UTF-8 under JBL_PRINT_CODEPOINTS) is the same error on both sides *)
-Theorem C14_print_agree : forall fo pf v bs, wf v = true -> binn_encode v = Some bs -> Text.indent pf = 1 ->
+(* ... hence print_agree as the property states it, for EVERY flag set (JBL_PRINT_PRETTY, JBL_PRINT_CODEPOINTS,
+   JBL_PRINT_PRETTY_INDENT2, JBL_PRINT_PRETTY_INDENT4 and any other bits): the text printed from the binary form is the text
+   printed from the tree; doubles print through `fo` on both sides; a printer error (invalid UTF-8 under JBL_PRINT_CODEPOINTS)
+   is the same error on both sides.  Unconditional since the library fix d42c39c: before it `_jbl_as_json` ignored the
+   indentation bits and this round had proved a refutation (witness [1], JBL_PRINT_PRETTY_INDENT2) instead *)
+Theorem C14_print_agree : forall fo pf v bs, wf v = true -> binn_encode v = Some bs ->
   jbl_as_json_binn fo pf bs = lift (as_json fo pf v).
 Proof. exact print_agree. Qed.
 Print Assumptions C14_print_agree.
 
 Example C14_print_agree_ex : exists bs t,
-  binn_encode C14_doc = Some bs /\ Text.indent (Z.lor JBL_PRINT_PRETTY JBL_PRINT_CODEPOINTS) = 1 /\
-  as_json (fun _ => [49; 46; 53]) (Z.lor JBL_PRINT_PRETTY JBL_PRINT_CODEPOINTS) C14_doc = Ok t /\
-  jbl_as_json_binn (fun _ => [49; 46; 53]) (Z.lor JBL_PRINT_PRETTY JBL_PRINT_CODEPOINTS) bs = BOk t.
-Proof. eexists. eexists. split; [vm_compute; reflexivity|]. split; [vm_compute; reflexivity|]. split; vm_compute; reflexivity. Qed.
-
-(* the full statement "for every print flag" is FALSE of the code: with JBL_PRINT_PRETTY_INDENT2 (or _INDENT4) the tree is
-   indented by two (four) spaces per level and the binary form by one - witness [1]; replayed on the library (notes/jbinn.md,
-   fixes/jbinn-print-indent.diff) *)
-Theorem C14_print_agree_refuted : exists fo pf v bs, wf v = true /\ binn_encode v = Some bs /\
-  jbl_as_json_binn fo pf bs <> lift (as_json fo pf v).
-Proof. exact print_agree_refuted. Qed.
-Print Assumptions C14_print_agree_refuted.
+  binn_encode C14_doc = Some bs /\
+  as_json (fun _ => [49; 46; 53]) (Z.lor JBL_PRINT_PRETTY_INDENT4 JBL_PRINT_CODEPOINTS) C14_doc = Ok t /\
+  jbl_as_json_binn (fun _ => [49; 46; 53]) (Z.lor JBL_PRINT_PRETTY_INDENT4 JBL_PRINT_CODEPOINTS) bs = BOk t /\
+  as_json (fun _ => []) JBL_PRINT_PRETTY_INDENT2 (JArr [JI64 1]) = Ok [91; 10; 32; 32; 49; 10; 93] /\
+  jbl_as_json_binn (fun _ => []) JBL_PRINT_PRETTY_INDENT2 [224; 5; 1; 32; 1] = BOk [91; 10; 32; 32; 49; 10; 93].
+Proof. eexists. eexists. split; [vm_compute; reflexivity|]. split; [vm_compute; reflexivity|]. repeat split; vm_compute; reflexivity. Qed.
 
 (* ---- (b) conversion orders.  Starting from a tree v, take any chain of jbn_clone, jbl_to_node (decode), jbn_from_json
    (parse) | jbl_from_node (encode), jbl_clone, jbl_clone_into_pool | jbn_as_json, jbl_as_json with ANY flag sets - any order, any
@@ -256,9 +246,8 @@ Print Assumptions C14_conversion_orders_tree_binary.
    printers whenever JBL_PRINT_CODEPOINTS is off, parsing by C13's theorem *)
 Theorem C14_conversions_total : forall ora fo pf v, wf v = true -> fits v = true -> is_container v = true ->
   nodbl v = true -> TextSpec.depth v <= JBL_MAX_NESTING_LEVEL -> has pf JBL_PRINT_CODEPOINTS = false ->
-  exists bs x xb, binn_encode v = Some bs /\ binn_decode bs = Some v /\
-                  as_json fo pf v = Ok x /\ from_json ora x = Ok (Some v) /\
-                  jbl_as_json_binn fo pf bs = BOk xb /\ from_json ora xb = Ok (Some v).
+  exists bs x, binn_encode v = Some bs /\ binn_decode bs = Some v /\
+               as_json fo pf v = Ok x /\ jbl_as_json_binn fo pf bs = BOk x /\ from_json ora x = Ok (Some v).
 Proof. exact conversions_total. Qed.
 Print Assumptions C14_conversions_total.
 
